@@ -219,6 +219,97 @@ class PyIndex:
         self._merge_singledispatch()
         self._unwrap_wrappers()
         self._partials_to_functions()
+        self._split_record_attributes()
+
+    def _split_record_attributes(self):
+        """`self.opts = Record(a=x, b=y)` (Record a NamedTuple of the same module; assigned in one place of the class, and otherwise only read as `self.opts.<field>`
+        or `**self.opts._asdict()`) is read as one attribute per field: `self.opts__a = x; self.opts__b = y`, `self.opts.a` -> `self.opts__a`,
+        `f(**self.opts._asdict())` -> `f(a=self.opts__a, b=self.opts__b)`.  A group of values bundled into a record is then the same program as the separate attributes."""
+        import copy
+        for mod in self.modules.values():
+            records = {}
+            for st in mod.tree.body:
+                if isinstance(st, ast.ClassDef) and any((isinstance(b, ast.Name) and b.id == 'NamedTuple') or (isinstance(b, ast.Attribute) and b.attr == 'NamedTuple')
+                                                        for b in st.bases):
+                    fields = [x.target.id for x in st.body if isinstance(x, ast.AnnAssign) and isinstance(x.target, ast.Name)]
+                    if fields and not any(isinstance(x, ast.FunctionDef) for x in st.body):
+                        records[st.name] = fields
+            if not records:
+                continue
+            for cls in [st for st in mod.tree.body if isinstance(st, ast.ClassDef)]:
+                stores = [n for n in ast.walk(cls) if isinstance(n, ast.Assign) and len(n.targets) == 1 and isinstance(n.targets[0], ast.Attribute)
+                          and isinstance(n.targets[0].value, ast.Name) and n.targets[0].value.id == 'self' and isinstance(n.value, ast.Call)
+                          and isinstance(n.value.func, ast.Name) and n.value.func.id in records]
+                by_attr = {}
+                for n in stores:
+                    by_attr.setdefault(n.targets[0].attr, []).append(n)
+                for attr, ns in by_attr.items():
+                    if len(ns) != 1:
+                        continue
+                    n = ns[0]
+                    fields = records[n.value.func.id]
+                    if any(isinstance(a, ast.Starred) for a in n.value.args) or any(k.arg is None or k.arg not in fields for k in n.value.keywords) or len(n.value.args) > len(fields):
+                        continue
+                    vals = dict(zip(fields, n.value.args))
+                    vals.update({k.arg: k.value for k in n.value.keywords})
+                    if set(vals) != set(fields):
+                        continue
+                    # every other use of self.<attr> is a field read or `._asdict()`
+                    uses = [x for x in ast.walk(cls) if isinstance(x, ast.Attribute) and x.attr == attr and isinstance(x.value, ast.Name) and x.value.id == 'self'
+                            and x is not n.targets[0]]
+                    parents = {}
+                    for p_ in ast.walk(cls):
+                        for ch in ast.iter_child_nodes(p_):
+                            parents[id(ch)] = p_
+                    okay = True
+                    for u in uses:
+                        par = parents.get(id(u))
+                        if isinstance(par, ast.Attribute) and isinstance(par.ctx, ast.Load) and (par.attr in fields or par.attr == '_asdict'):
+                            if par.attr == '_asdict':
+                                gp = parents.get(id(par))
+                                ggp = parents.get(id(gp)) if gp is not None else None
+                                if not (isinstance(gp, ast.Call) and not gp.args and isinstance(ggp, ast.keyword) and ggp.arg is None):
+                                    okay = False
+                            continue
+                        okay = False
+                    if not okay:
+                        continue
+
+                    class _R(ast.NodeTransformer):
+                        def visit_Assign(self_, a):
+                            if a is n:
+                                out = []
+                                for f_ in fields:
+                                    s_ = ast.Assign(targets=[ast.Attribute(value=ast.Name(id='self', ctx=ast.Load()), attr=f'{attr}__{f_}', ctx=ast.Store())], value=vals[f_])
+                                    ast.copy_location(s_, a)
+                                    ast.fix_missing_locations(s_)
+                                    out.append(s_)
+                                return out
+                            self_.generic_visit(a)
+                            return a
+
+                        def visit_Attribute(self_, x):
+                            self_.generic_visit(x)
+                            if isinstance(x.value, ast.Attribute) and x.value.attr == attr and isinstance(x.value.value, ast.Name) and x.value.value.id == 'self' and x.attr in fields:
+                                return ast.copy_location(ast.Attribute(value=ast.Name(id='self', ctx=ast.Load()), attr=f'{attr}__{x.attr}', ctx=x.ctx), x)
+                            return x
+
+                        def visit_Call(self_, c):
+                            new_kw = []
+                            for k in c.keywords:
+                                v = k.value
+                                if k.arg is None and isinstance(v, ast.Call) and isinstance(v.func, ast.Attribute) and v.func.attr == '_asdict' \
+                                        and isinstance(v.func.value, ast.Attribute) and v.func.value.attr == attr and isinstance(v.func.value.value, ast.Name) \
+                                        and v.func.value.value.id == 'self':
+                                    for f_ in fields:
+                                        new_kw.append(ast.keyword(arg=f_, value=ast.Attribute(value=ast.Name(id='self', ctx=ast.Load()), attr=f'{attr}__{f_}', ctx=ast.Load())))
+                                else:
+                                    new_kw.append(k)
+                            c.keywords = new_kw
+                            self_.generic_visit(c)
+                            return c
+                    _R().visit(cls)
+                    ast.fix_missing_locations(cls)
 
     def _partials_to_functions(self):
         """Module level `name = partial(f, a, k=v)` with f a function of the same module is read as `def name(<the other parameters of f>): return f(a, <them>, k=v)`:
